@@ -84,6 +84,9 @@ fn inputs(ev: Ev, d1: usize, d2: usize) -> Vec<String> {
     }
     // every name x the critical arguments (branch points, poles, range limits; without the triples)
     v.extend(refmodel::families::critical(ev, false));
+    // the pumped families (every recursive construct at lengths up to 256 characters: long digit and
+    // superscript runs, deep nesting, long chains)
+    v.extend(refmodel::families::pumping(ev));
     v
 }
 
